@@ -86,14 +86,16 @@ def _flat_with_patterns(draw):
     names = sorted({p.split("/")[-1] for p in gen.tree_files(tree) + gen.tree_dirs(tree)})
     pats = draw(st.lists(st.sampled_from(names + ["my notes.txt", "Camera Reports"]), min_size=1, max_size=3, unique=True))
     tree.setdefault("kid", {"k.txt": "in the nested history", "my": "another 'my'"})
-    return {"kind": "flat_with_patterns", "tree": tree, "patterns": pats, "via": draw(st.sampled_from(["-i", "-ii", "-ii"])), "gens": draw(st.lists(gen.formats(2), min_size=1, max_size=3)),
+    kid_history = draw(st.booleans())
+    return {"kind": "flat_with_patterns", "tree": tree, "patterns": pats, "via": draw(st.sampled_from(["-i", "-ii", "-ii"])),
+            "gens": draw(st.lists(gen.formats(2), min_size=2 if kid_history else 1, max_size=3)),
             "newline": draw(st.booleans()),
             # optionally 'kid' has a history of its own and one generation of the top history is a create -sf on a file in it
-            "kid_history": draw(st.booleans()), "sf_generation_at": draw(st.integers(0, 3))}
+            "kid_history": kid_history, "sf_generation_at": draw(st.sampled_from([1, 1, 2]))}
 
 
 def strategy(tier):
-    return st.one_of(_scn(), _scn(), _scn(), _scn(), _scn(), _flat_with_patterns())
+    return st.one_of(_scn(), _scn(), _scn(), _scn(), _flat_with_patterns())
 
 
 def run_flat_with_patterns(scn, ctx):
